@@ -31,11 +31,12 @@ inductive Ty where
   | iface
   deriving DecidableEq, Repr, Inhabited
 
-/-- What a user-declared method does, for the corpus types that declare one.
-The corpus generator emits exactly these bodies; the semantics are in `S/*`. -/
+/-- The shape of a user-declared Equal / Compare / Hash method of a corpus type. The corpus generator
+emits bodies that look at the first field only (so that the method's answer differs from the structural
+one); their semantics are in `S/Methods.lean`. -/
 inductive UserFn where
-  | firstField      -- looks only at the first field / first element
-  | constTrue       -- Equal: always true; Compare: always 0; Hash: constant
+  | ptr      -- pointer receiver and pointer parameter (nil-safe)
+  | val      -- value receiver and value parameter
   deriving DecidableEq, Repr, Inhabited
 
 structure Decl where
@@ -44,6 +45,7 @@ structure Decl where
   priv     : Bool := false     -- has unexported fields (reflect/unsafe path when external)
   canEq    : Bool := false     -- cached `canEqual under` (checked by `Env.flagsOk`)
   privMask : List Bool := []   -- per field: unexported (only consulted when `external`)
+  canEqM   : Bool := false     -- `canEqual` as plugin/equal computes it: a type with an Equal method is not `==`-compared
   eqM      : Option UserFn := none
   cmpM     : Option UserFn := none
   hashM    : Option UserFn := none
